@@ -143,6 +143,10 @@ UDT_OPERANDS = [0]
 CASE_VARIANTS = [0]
 
 
+KEYWORD_FRAGMENTS = ('a', 's', 'e', 'c', 'n', 'an', 'ea', 'sel', 'cre', 'rom', 'ach', 'whe', 'lat')
+KEYWORD_FRAGMENT_NAMES = [0]
+
+
 class Gen(object):
     def __init__(self, rng, home, features=None, events=False, bare_constants=False):
         self.rng = rng
@@ -171,6 +175,13 @@ class Gen(object):
         if seen and self.rng.random() < 0.12:
             CASE_VARIANTS[0] += 1
             return self.rng.choice(seen).upper()
+        if self.rng.random() < 0.12:
+            # a short name that is also a fragment of a keyword of the language (select any a from ..., for each e in ...)
+            short = [n for n in KEYWORD_FRAGMENTS if self.lookup(n) is None and n not in self.retired
+                     and self.lookup(n.upper()) is None]
+            if short:
+                KEYWORD_FRAGMENT_NAMES[0] += 1
+                return self.rng.choice(short)
         self.counter += 1
         return '%s%d' % (p, self.counter)
 
